@@ -103,6 +103,7 @@ P = 2147483647
 
 # ----------------------------------------------------------------------------- recording regressors
 _LOGS = {}          # log id -> list of records
+_FAIL = {}          # log id -> [k, attempts]: the regressor raises on its (k+1)-th predict call (once)
 _NEXT = [0]
 
 
@@ -171,6 +172,11 @@ class _RecMixin:
 
     def _rec_predict(self, X):
         log = _LOGS[self.log_id]
+        fl = _FAIL.get(self.log_id)
+        if fl is not None:
+            fl[1] += 1
+            if fl[1] == fl[0] + 1:
+                raise RuntimeError("recording regressor: scheduled failure")     # not recorded
         Xc = np.array(X, dtype=float, copy=True)
         insts = _insts(Xc)
         if self.k_ is None:
@@ -410,6 +416,19 @@ def _rows_tok(rows):
 def to_line(c):
     if c["op"] == "swt":
         return "C05 swt %s %s %s %s %s" % (c["sci"], _wl_tok(c["wl"]), _fh_tok(sorted(c["fh"])), _svals(c["y"]), _rows_tok(c["X"]))
+    if c["op"] == "hist":
+        ops = []
+        for o in c["ops"]:
+            if o["k"] == "U":
+                ops.append("U@%d@%s@%s@%s" % (o["u0"], _svals(o["uy"]), _rows_tok(o["uX"]), "T" if o["refit"] else "F"))
+            elif o["k"] == "W":
+                ops.append("W@%d@%s@%s@%s" % (o["u0"], _svals(o["uy"]), _rows_tok(o["Xup"]), "T" if o["refit"] else "F"))
+            else:
+                ops.append("P@%s@%s" % (_fh_tok(o["fh"]), _rows_tok(o["Xp"])))
+        via = c.get("via", "make")
+        return "C05 hist %s %d %s %s %s %s %d %s %s %s %s" % (
+            via, c.get("step", 1), c["strategy"], _sci_expected(c), _wl_tok(c["wl"]), _fh_tok(c["fh"]), c["t0"],
+            _svals(c["y"]), _rows_tok(c["X"]), "none" if c.get("fail") is None else str(c["fail"]), " ".join(ops))
     return "C05 run %s %s %s %s %s %d %s %s %s %d %s %s %s" % (
         c["strategy"], _sci_expected(c), _wl_tok(c["wl"]), _fh_tok(c["fh"]), _fh_tok(c["fhp"]), c["t0"],
         _svals(c["y"]), _rows_tok(c["X"]), c["upd"], _u0(c), _svals(c["uy"]), _rows_tok(c["uX"]), _rows_tok(c["Xp"]))
@@ -419,39 +438,90 @@ def to_line(c):
 _SCI_NAME = {"tab": "tabular-regressor", "ts": "time-series-regressor", "infer": "infer"}
 
 
+_CLS = {("direct", "tab"): "DirectTabularRegressionForecaster", ("direct", "ts"): "DirectTimeSeriesRegressionForecaster",
+        ("recursive", "tab"): "RecursiveTabularRegressionForecaster", ("recursive", "ts"): "RecursiveTimeSeriesRegressionForecaster",
+        ("multioutput", "tab"): "MultioutputTabularRegressionForecaster", ("multioutput", "ts"): "MultioutputTimeSeriesRegressionForecaster",
+        ("dirrec", "tab"): "DirRecTabularRegressionForecaster", ("dirrec", "ts"): "DirRecTimeSeriesRegressionForecaster"}
+VIAS = ["make", "cls", "rf", "rrf"]
+
+
+def _construct(c, reg):
+    """build the reducer through the public construction path named by c['via']"""
+    import sktime.forecasting.compose as comp
+    import sktime.forecasting.compose._reduce as red
+    via = c.get("via", "make")
+    wl = _wl_value(c["wl"])
+    step = c.get("step", 1)
+    if via == "make":
+        return comp.make_reduction(reg, strategy=c["strategy"], window_length=wl, scitype=_SCI_NAME[c["scitype"]])
+    if via == "cls":
+        return getattr(comp, _CLS[(c["strategy"], _sci_expected(c))])(estimator=reg, window_length=wl, step_length=step)
+    if via == "rf":
+        return comp.ReducedForecaster(reg, scitype=_SCI_NAME[c["scitype"]], strategy=c["strategy"], window_length=wl, step_length=step)
+    if via == "rrf":
+        return red.ReducedRegressionForecaster(reg, _SCI_NAME[c["scitype"]], strategy=c["strategy"], window_length=wl, step_length=step)
+    raise ValueError(via)
+
+
+def _sfc(yp):
+    return "-" if len(yp) == 0 else ",".join("%d:%s" % (int(l), _sv(v)) for l, v in zip(yp.index, yp.values))
+
+
 def run_real(c):
     _layout_selftest()
     if c["op"] == "swt":
         return _run_swt(c)
-    from sktime.forecasting.compose import make_reduction
     lid = _new_log()
     log = _LOGS[lid]
+    dt, xdt = c.get("dtype", "float64"), c.get("xdtype", "float64")
+    lay, xlay = c.get("layout", "contig"), c.get("xlayout", "contig")
+    ncx = len(c["X"][0]) if c["X"] else None
     stage = "fit"
     try:
         reg = _classes()[c["reg"]](log_id=lid)
         n = len(c["y"])
-        dt, xdt = c.get("dtype", "float64"), c.get("xdtype", "float64")
-        lay, xlay = c.get("layout", "contig"), c.get("xlayout", "contig")
         y = _series(c["y"], c["t0"], dt, lay)
         X = _frame(c["X"], c["t0"], dtype=xdt, layout=xlay)
-        f = make_reduction(reg, strategy=c["strategy"], window_length=_wl_value(c["wl"]), scitype=_SCI_NAME[c["scitype"]])
+        f = _construct(c, reg)
         f.fit(y, X, fh=None if c["fh"] is None else list(c["fh"]))
-        if c["upd"] != "no":
-            stage = "update"
-            uy = _series(c["uy"], _u0(c), dt, lay)
-            uX = _frame(c["uX"], _u0(c), ncols=(len(c["X"][0]) if c["X"] else None), dtype=xdt, layout=xlay)
-            if c["upd"] in ("up", "uprefit"):
-                f.update_predict(uy, update_params=(c["upd"] == "uprefit"))
-            else:
-                f.update(uy, uX, update_params=(c["upd"] == "refit"))
-        stage = "predict"
-        Xp = _frame(c["Xp"], int(f.cutoff) + 1, dtype=xdt, layout=xlay)
-        yp = f.predict(None if c["fhp"] is None else list(c["fhp"]), X=Xp)
-        res = "-" if len(yp) == 0 else ",".join("%d:%s" % (int(l), _sv(v)) for l, v in zip(yp.index, yp.values))
+        if c["op"] == "hist":
+            if c.get("fail") is not None:
+                _FAIL[lid] = [c["fail"], 0]
+            outs = []
+            for o in c["ops"]:
+                try:
+                    if o["k"] == "U":
+                        f.update(_series(o["uy"], o["u0"], dt, lay), _frame(o["uX"], o["u0"], ncols=ncx, dtype=xdt, layout=xlay),
+                                 update_params=o["refit"])
+                        outs.append("ok")
+                    elif o["k"] == "W":
+                        f.update_predict(_series(o["uy"], o["u0"], dt, lay), X=_frame(o["Xup"], o["u0"], dtype=xdt, layout=xlay),
+                                         update_params=o["refit"])
+                        outs.append("ok")
+                    else:
+                        yp = f.predict(None if o["fh"] is None else list(o["fh"]),
+                                       X=_frame(o["Xp"], int(f.cutoff) + 1, dtype=xdt, layout=xlay))
+                        outs.append(_sfc(yp))
+                except Exception as e:
+                    outs.append(canon_err(e))
+            res = "-" if not outs else "|".join(outs)
+        else:
+            if c["upd"] != "no":
+                stage = "update"
+                uy = _series(c["uy"], _u0(c), dt, lay)
+                uX = _frame(c["uX"], _u0(c), ncols=ncx, dtype=xdt, layout=xlay)
+                if c["upd"] in ("up", "uprefit"):
+                    f.update_predict(uy, update_params=(c["upd"] == "uprefit"))
+                else:
+                    f.update(uy, uX, update_params=(c["upd"] == "refit"))
+            stage = "predict"
+            Xp = _frame(c["Xp"], int(f.cutoff) + 1, dtype=xdt, layout=xlay)
+            res = _sfc(f.predict(None if c["fhp"] is None else list(c["fhp"]), X=Xp))
     except Exception as e:
         res = "%s@%s" % (canon_err(e), stage)
     calls = "-" if not log else "/".join(_scall(r) for r in log)
     del _LOGS[lid]
+    _FAIL.pop(lid, None)
     return "calls=%s res=%s" % (calls, res)
 
 
@@ -500,6 +570,15 @@ def _parse_calls(s):
     return calls
 
 
+def _pfc(r):
+    res = []
+    if r != "-":
+        for tok in r.split(","):
+            l, v = tok.split(":")
+            res.append((int(l), v))
+    return res
+
+
 def _parse_run(out):
     a, b = out.split(" ")
     calls = _parse_calls(a[len("calls="):])
@@ -507,12 +586,26 @@ def _parse_run(out):
     if r.startswith("E:"):
         kind, stage = r.split("@")
         return calls, {"err": kind, "stage": stage}
+    return calls, {"ok": _pfc(r)}
+
+
+def _parse_hist(out):
+    """-> calls, fit error or None, list of per-operation results ('ok' | ('err', kind) | ('fc', pairs))"""
+    a, b = out.split(" ")
+    calls = _parse_calls(a[len("calls="):])
+    r = b[len("res="):]
+    if r.endswith("@fit"):
+        return calls, r[:-4], []
     res = []
     if r != "-":
-        for tok in r.split(","):
-            l, v = tok.split(":")
-            res.append((int(l), v))
-    return calls, {"ok": res}
+        for tok in r.split("|"):
+            if tok == "ok":
+                res.append("ok")
+            elif tok.startswith("E:"):
+                res.append(("err", tok))
+            else:
+                res.append(("fc", _pfc(tok)))
+    return calls, None, res
 
 
 # ----------------------------------------------------------------------------- the property, stated on observations
